@@ -1,0 +1,76 @@
+//go:build verif
+
+// Contracts for package auth/providers, checked by /verif (ssovc). Comment-only file.
+package providers
+
+// ---- Google -------------------------------------------------------------------------------------------
+// The identity provider's answer is the environment: arbitrary status, arbitrary body.
+//@ func (p *GoogleProvider) googleRequest(method string, endpoint string, params url.Values, tags []string, response interface{}) error
+//@   modifies everything
+//@   let answered = called(@Do#1) && @Do#1.1 == nil && called(@ReadAll#1) && @ReadAll#1.1 == nil
+//@   ensures [C10] ok_needs_200: result == nil ==> answered && at(@Do#1, @Do#1.0.StatusCode) == 200
+//@   ensures [C10] body_decoded: result == nil && response != nil ==> called(@Unmarshal#2) && @Unmarshal#2 == nil
+//@   ensures [C10] error_status_is_error: answered && at(@Do#1, @Do#1.0.StatusCode) != 200 ==> result != nil
+//@   ensures [C10] transport_error_is_error: called(@Do#1) && @Do#1.1 != nil ==> result != nil
+
+//@ func jwtDecodeSegment(seg string) ([]byte, error)
+//@   modifies nothing
+
+// `email` is the local struct the token payload is decoded into: "whatever encoding/json decoded".
+//@ func emailFromIDToken(idToken string) (string, error)
+//@   modifies nothing
+//@   ensures [C10] decoded_claim: result.1 == nil ==> called(@jwtDecodeSegment#1) && @jwtDecodeSegment#1.1 == nil && called(@Unmarshal#1) && @Unmarshal#1 == nil && result.0 == at(@Unmarshal#1, email.Email)
+//@   ensures [C10] nonempty_and_verified: result.1 == nil ==> result.0 != "" && at(@Unmarshal#1, email.EmailVerified)
+//@   ensures [C10] no_email_on_error: result.1 != nil ==> result.0 == ""
+
+//@ func (p *GoogleProvider) Redeem(redirectURL string, code string) (*sessions.SessionState, error)
+//@   modifies everything
+//@   fresh result.0
+//@   ensures [C10] session_only_for_vouched_email: result.1 == nil ==> result.0 != nil && called(@googleRequest#1) && @googleRequest#1 == nil && called(@emailFromIDToken#1) && @emailFromIDToken#1.1 == nil && result.0.Email == @emailFromIDToken#1.0
+//@   ensures [C10] no_session_on_error: result.1 != nil ==> result.0 == nil
+//@   ensures [C09] lifetime_from_login: result.1 == nil ==> result.0.LifetimeDeadline <= clock + p.SessionLifetimeTTL
+
+// ---- Okta ---------------------------------------------------------------------------------------------
+//@ func (p *OktaProvider) verifyEmailWithAccessToken(AccessToken string) (string, error)
+//@   modifies everything
+//@   ensures [C10] from_userinfo: result.1 == nil ==> called(@GetUserProfile#1) && @GetUserProfile#1.1 == nil && result.0 == @GetUserProfile#1.0.EmailAddress && result.0 != "" && @GetUserProfile#1.0.EmailVerified
+//@   ensures [C10] no_email_on_error: result.1 != nil ==> result.0 == ""
+
+//@ func (p *OktaProvider) Redeem(redirectURL string, code string) (*sessions.SessionState, error)
+//@   modifies everything
+//@   fresh result.0
+//@   ensures [C10] session_only_for_vouched_email: result.1 == nil ==> result.0 != nil && called(@oktaRequest#1) && @oktaRequest#1 == nil && called(@verifyEmailWithAccessToken#1) && @verifyEmailWithAccessToken#1.1 == nil && result.0.Email == @verifyEmailWithAccessToken#1.0
+//@   ensures [C10] no_session_on_error: result.1 != nil ==> result.0 == nil
+
+//@ func (p *OktaProvider) oktaRequest(method string, endpoint string, params url.Values, tags []string, header http.Header, response interface{}) error
+//@   modifies everything
+//@   let answered = called(@Do#1) && @Do#1.1 == nil && called(@ReadAll#1) && @ReadAll#1.1 == nil
+//@   ensures [C10] ok_needs_200: result == nil ==> answered && at(@Do#1, @Do#1.0.StatusCode) == 200
+//@   ensures [C10] body_decoded: result == nil && response != nil ==> called(@Unmarshal#2) && @Unmarshal#2 == nil
+//@   ensures [C10] error_status_is_error: answered && at(@Do#1, @Do#1.0.StatusCode) != 200 ==> result != nil
+//@   ensures [C10] transport_error_is_error: called(@Do#1) && @Do#1.1 != nil ==> result != nil
+
+// ---- Amazon Cognito -----------------------------------------------------------------------------------
+//@ func (p *AmazonCognitoProvider) amazonCognitoRequest(method string, endpoint string, params url.Values, tags []string, header http.Header, basicAuth bool, response interface{}) error
+//@   modifies everything
+//@   let answered = called(@Do#1) && @Do#1.1 == nil && called(@ReadAll#1) && @ReadAll#1.1 == nil
+//@   ensures [C10] ok_needs_200: result == nil ==> answered && at(@Do#1, @Do#1.0.StatusCode) == 200
+//@   ensures [C10] error_status_is_error: answered && at(@Do#1, @Do#1.0.StatusCode) != 200 ==> result != nil
+//@   ensures [C10] transport_error_is_error: called(@Do#1) && @Do#1.1 != nil ==> result != nil
+
+//@ func (p *AmazonCognitoProvider) verifyEmailWithAccessToken(accessToken string) (string, error)
+//@   modifies everything
+//@   ensures [C10] from_userinfo: result.1 == nil ==> called(@GetUserProfile#1) && @GetUserProfile#1.1 == nil && result.0 == @GetUserProfile#1.0.EmailAddress && result.0 != ""
+//@   ensures [C10] no_email_on_error: result.1 != nil ==> result.0 == ""
+
+//@ func (p *AmazonCognitoProvider) Redeem(redirectURL string, code string) (*sessions.SessionState, error)
+//@   modifies everything
+//@   fresh result.0
+//@   ensures [C10] session_only_for_vouched_email: result.1 == nil ==> result.0 != nil && called(@amazonCognitoRequest#1) && @amazonCognitoRequest#1 == nil && called(@verifyEmailWithAccessToken#1) && @verifyEmailWithAccessToken#1.1 == nil && result.0.Email == @verifyEmailWithAccessToken#1.0
+//@   ensures [C10] no_session_on_error: result.1 != nil ==> result.0 == nil
+
+// ---- the Provider interface as the authenticator sees it ------------------------------------------------
+//@ interface Provider.Redeem(redirectURL string, code string) (*sessions.SessionState, error)
+//@   modifies everything
+//@   ensures result.1 == nil ==> result.0 != nil
+//@   ensures result.1 != nil ==> result.0 == nil
